@@ -436,10 +436,11 @@ func classify(err error) string {
 	}
 	s := err.Error()
 	if strings.HasPrefix(s, "E#") {
-		// handler error texts generated by the harness carry their own id
-		if i := strings.IndexByte(s, '|'); i > 0 {
-			sum := sha1.Sum([]byte(s))
-			return fmt.Sprintf("text:%s:%d:%x", s[:i], len(s), sum[:4])
+		// handler error texts generated by the harness: "text:k:n" iff it is exactly the text
+		// generated for call k with length n (verbatim, every byte)
+		var k int
+		if _, e := fmt.Sscanf(s, "E#%d|", &k); e == nil && s == errText(k, len(s)) {
+			return fmt.Sprintf("text:%d:%d", k, len(s))
 		}
 	}
 	sum := sha1.Sum([]byte(s))
